@@ -25,8 +25,14 @@ oracle leg           the property's statement on the real code: (a) every `_reas
                      is binary, one precision per channel, every count met; (b) end to end on nets of
                      2-4 convs + optional linear head: no channel lower than before, per-layer counts =
                      the counts handed to the reassignment, NE16 cost (eval mode, hard sampling) not
-                     higher than before.  Every failure is keyed by a class computed from the failing
-                     layer — see `_e2e_failures` and `reassign_failure`.
+                     higher than before.  The call is preceded by a generated history (constructor with
+                     hard_softmax on/off, eval/train mode, alpha written after the last forward pass, an
+                     earlier update_softmax_options(hard=True) or an earlier refinement call; some nets with
+                     disable_sampling / gumbel_softmax, some with two parallel branches sharing one weight
+                     quantizer); the reference (bit-widths and cost before) is always the arg-max
+                     assignment of the CURRENT alpha, its cost measured on an identical twin model.
+                     Every failure is keyed by a class computed from the failing layer and the call
+                     history — see `_e2e_failures` and `reassign_failure`.
 """
 import contextlib
 import io
